@@ -32,10 +32,14 @@ func (registry registryT) New(regID RegisterID, value interface{}) (Register, er
 
 	valV := reflect.ValueOf(value)
 	switch {
+	case regV.Kind() == reflect.Array && regV.Type().Elem().Kind() == reflect.Uint8 && valV.Kind() == reflect.Slice:
+		b, ok := value.([]byte)
+		if !ok || len(b) != regV.Len() {
+			return nil, fmt.Errorf("%T (length %d) is not convertible to %s (%d bytes)", value, valV.Len(), regT.Name(), regV.Len())
+		}
+		copy(regV.Slice(0, regV.Cap()).Interface().([]byte), b)
 	case valV.Type().ConvertibleTo(regT):
 		regV.Set(valV.Convert(regT))
-	case regV.Kind() == reflect.Array && regV.Type().Elem().Kind() == reflect.Uint8:
-		copy(regV.Slice(0, regV.Cap()).Interface().([]byte), valV.Interface().([]byte))
 	default:
 		return nil, fmt.Errorf("%T is not convertible to %s", value, regT.Name())
 	}
